@@ -177,6 +177,31 @@ def run(ctx):
             if abs(icnt[i] - ck) > mg:
                 ctx.broke("correspondence:sasa-count", "atom %d: impl count %d, model %d (marginal points %d); %s points, %s atoms" % (i, icnt[i], ck, mg, rp["n_sphere_points"], rp["n_atoms"]))
                 break
+    # ---- arguments: a numpy float64 probe radius is a radius; indices that are negative, boolean or two-dimensional, and a sphere without
+    # points, are refused rather than given areas in other atoms' slots
+    tv = make_system(md, rng, 8)
+    ref_ = md.shrake_rupley(tv, probe_radius=0.14, n_sphere_points=50)
+    ctx.case(None, ("arguments",)); ctx.count("argument-form calls", 6)
+    try:
+        got_ = md.shrake_rupley(tv, probe_radius=np.float64(0.14), n_sphere_points=50)
+        if not np.array_equal(got_, ref_):
+            viol("arguments|probe-float64", "probe_radius=np.float64(0.14) gives other areas than probe_radius=0.14", dict())
+    except Exception as e:  # noqa: BLE001
+        viol("arguments|probe-float64", "probe_radius=np.float64(0.14) raised %s: %s" % (type(e).__name__, str(e)[:80]), dict())
+    for label_, bad_ in (("negative", [-1]), ("negative-mixed", [0, -1]), ("boolean-mask", np.array([True, False] * 4)), ("two-dimensional", [[0, 1]])):
+        try:
+            got_ = md.shrake_rupley(tv, probe_radius=0.14, n_sphere_points=50, atom_indices=bad_)[0]
+            sel_ = np.zeros(8, bool); sel_[np.asarray(bad_).ravel().astype(int) % 8 if label_ != "boolean-mask" else np.asarray(bad_)] = True
+            if not (np.allclose(got_[sel_], ref_[0][sel_]) and np.all(got_[~sel_] == -1)):
+                viol("arguments|atom_indices|" + label_, "atom_indices=%s is accepted and gives %s (all-atom areas %s)" % (np.asarray(bad_).tolist(), got_.tolist(), ref_[0].tolist()), dict(atom_indices=np.asarray(bad_).tolist()))
+        except (ValueError, IndexError, TypeError):
+            pass
+    for nsp_ in (0, -1):
+        try:
+            got_ = md.shrake_rupley(tv, n_sphere_points=nsp_)
+            viol("arguments|n_sphere_points", "n_sphere_points=%d is accepted and gives %s" % (nsp_, got_[0][:3].tolist()), dict(n_sphere_points=nsp_))
+        except (ValueError, OverflowError, MemoryError):
+            pass
     for key, (what, rp) in seen.items():
         ctx.violation(key, what, rp)
 
